@@ -33,6 +33,7 @@ type c03Scen struct {
 	// Warm promptly acknowledged QoS1 messages are delivered before the script starts: with max_inflight 1 the
 	// broker consumes exactly one packet id per message, so 65534 of them put the id counter at the 65535 boundary.
 	Warm int `json:"warm,omitempty"`
+	Redis bool `json:"redis,omitempty"` // session queue on the redis backend (harness RESP server)
 }
 
 func genC03(t *rapid.T) c03Scen {
@@ -42,6 +43,7 @@ func genC03(t *rapid.T) c03Scen {
 	if s.V == 5 {
 		s.RM = rapid.SampledFrom(rms).Draw(t, "rm")
 	}
+	s.Redis = rapid.IntRange(0, 3).Draw(t, "backend") == 0
 	n := rapid.IntRange(3, 25).Draw(t, "nops")
 	for i := 0; i < n; i++ {
 		switch k := rapid.IntRange(0, 19).Draw(t, "kind"); {
@@ -204,6 +206,11 @@ func (r *c03Run) settle(ms int) {
 func runC03(s c03Scen, c *ev.Case) *ev.Violation {
 	cfg := fixture.BaseConfig()
 	cfg.MQTT.MaxInflight = uint16(s.MI)
+	cfg, cleanupBackend, bv := withBackend(cfg, s.Redis, c)
+	if bv != nil {
+		return bv
+	}
+	defer cleanupBackend()
 	b, err := fixture.Start(fixture.Opts{Config: cfg})
 	if err != nil {
 		return harnessErr("start broker: %v", err)
